@@ -577,17 +577,19 @@ func (s *Module) AddMPTNodes(nodes [][]byte) error {
 		return fmt.Errorf("MPT nodes were not requested: current state sync stage is %d", s.syncStage)
 	}
 
-	for _, nBytes := range nodes {
-		var n mpt.NodeObject
-		r := io.NewBinReaderFromBuf(nBytes)
-		n.DecodeBinary(r) // we're OK with counting depth from 0 for every node, maintaining it for every node in pool is excessive.
-		if r.Err != nil {
-			return fmt.Errorf("failed to decode MPT node: %w", r.Err)
-		}
-		err := s.restoreNode(n.Node)
-		if err != nil {
-			return err
-		}
+	// Everything a call changes reaches the underlying store at once: the store is
+	// flushed concurrently (persist timer) and a flush must not separate a restored
+	// leaf from its storage item or a node from its restoration under its other paths
+	// (after a crash the restored part is taken as it is found).
+	cache := storage.NewMemCachedStore(s.dao.Store)
+	s.billet.Store = cache
+	err := s.restoreNodes(nodes)
+	s.billet.Store = s.dao.Store
+	if _, pErr := cache.Persist(); pErr != nil && err == nil {
+		err = fmt.Errorf("failed to store restored MPT nodes: %w", pErr)
+	}
+	if err != nil {
+		return err
 	}
 	if s.mptpool.Count() == 0 {
 		_, err := s.dao.Store.PersistSync()
@@ -667,6 +669,22 @@ func (s *Module) AddContractStorageItems(kvs []storage.KeyValue) error {
 		zap.String("stateRoot", computedRoot.StringLE()),
 		zap.Uint32("blockHeight", s.blockHeight))
 
+	return nil
+}
+
+func (s *Module) restoreNodes(nodes [][]byte) error {
+	for _, nBytes := range nodes {
+		var n mpt.NodeObject
+		r := io.NewBinReaderFromBuf(nBytes)
+		n.DecodeBinary(r) // we're OK with counting depth from 0 for every node, maintaining it for every node in pool is excessive.
+		if r.Err != nil {
+			return fmt.Errorf("failed to decode MPT node: %w", r.Err)
+		}
+		err := s.restoreNode(n.Node)
+		if err != nil {
+			return err
+		}
+	}
 	return nil
 }
 
